@@ -537,8 +537,8 @@ def gen_map_node(rng: random.Random, force: str | None = None) -> dict:
     """Outer graph with one mapping nested-graph node (zip/product, items that fail or branch differently)."""
     names = Names()
     # inner graph: a(x, y, c) -> r ; optional branch gate producing b or s depending on x
-    branchy = rng.random() < 0.4
-    failing = (rng.random() < 0.4 or force is not None) and force != "product-order"
+    branchy = rng.random() < 0.4 or force == "branch-renamed"
+    failing = (rng.random() < 0.4 or force is not None) and force not in ("product-order", "branch-renamed")
     inner_nodes = []
     if failing and (rng.random() < 0.5 or force == "raise-multi"):
         body = {"b": "failGe", "k": rng.randint(1, 4), "t": "EA"}     # several items fail, each with its OWN error
@@ -574,9 +574,14 @@ def gen_map_node(rng: random.Random, force: str | None = None) -> dict:
         else:
             cur[p] = p
     out_ren = [["r", "rr"]] if rng.random() < 0.3 else []
+    if branchy and (rng.random() < 0.4 or force == "branch-renamed"):
+        # the branch outputs renamed on the wrapper (fresh names, or the two exchanged): an item that takes the other branch still fills its
+        # own list under the wrapper's names
+        out_ren = out_ren + rng.choice([[["b", "bb"]], [["s", "ss"]], [["b", "s"], ["s", "b"]], [["b", "bb"], ["s", "ss"]]])
     gn = {"name": "mapper", "kind": "graph", "inner": 0, "inRen": ren, "outRen": out_ren,
           "mapOver": [cur[p] for p in mapped], "mapMode": mode, "errMode": err}
-    outs = ["rr" if out_ren else "r"] + (["b", "s"] if branchy else []) + (["px"] if any(n["name"] == "pre" for n in inner_nodes) else [])
+    _ren = dict(out_ren)
+    outs = [_ren.get("r", "r")] + ([_ren.get("b", "b"), _ren.get("s", "s")] if branchy else []) + (["px"] if any(n["name"] == "pre" for n in inner_nodes) else [])
     rng.shuffle(gn["mapOver"])
     if force == "product-order":
         # a cartesian product whose map_over names are given in ANOTHER order than the inner graph declares its inputs: the order of the
@@ -594,6 +599,13 @@ def gen_map_node(rng: random.Random, force: str | None = None) -> dict:
             values.append([cur[p], {"l": rng.sample(range(0, 9), 2 + (j % 2))}])      # lists of different lengths, distinct members
             continue
         values.append([cur[p], {"l": [rng.randint(0, 4) for _ in range(ln)]}])
+    if force == "branch-renamed":
+        # the items take different branches (the inner gate tests x < 2), the FIRST one the branch whose output is renamed last
+        xs = rng.choice([[3, 0, 4, 1], [0, 3, 1, 4], [2, 2, 0], [1, 1, 3]])
+        gn["mapMode"] = mode = "zip"
+        gn["errMode"] = err = "raise"
+        for v in values:
+            v[1] = {"l": list(xs)} if v[0] == cur["x"] else {"l": [rng.randint(0, 4) for _ in xs]}
     if has_bcast:
         values.append([cur["c"], rand_value(rng)])
     rng.shuffle(values)
